@@ -761,6 +761,29 @@ def fuzz_inputs(rng):
             aeq = np.zeros((0, n))
             beq = np.zeros(0)
     if n >= 2 and rng.random() < 0.05:
+        # structured family for the NORMAL solver: two equality rows that are
+        # nearly dependent (relative gap 1e-10..1e-6), scaled to 1e3..1e5,
+        # the origin infeasible mainly along the weak singular direction, a
+        # radius larger than the distance to the solution
+        tags.append("near_dependent_eq")
+        r1 = rng.standard_normal(n)
+        w = rng.standard_normal(n)
+        gap = 10.0 ** rng.uniform(-10, -6)
+        sc = 10.0 ** rng.uniform(3, 5)
+        me = 2
+        aeq = np.vstack([r1, r1 + gap * w]) * sc
+        u_, s_, vt = np.linalg.svd(aeq)
+        xs = vt[1] * float(rng.choice([-1.0, 1.0])) * 10.0 ** rng.uniform(
+            -1, 1.3)
+        beq = aeq @ xs
+        delta = float(np.linalg.norm(xs) * rng.uniform(2, 10) + 1e-300)
+        xl = np.full(n, -np.inf)
+        xu = np.full(n, np.inf)
+        m = 0
+        aub = np.zeros((0, n))
+        bub = np.zeros(0)
+        bubn = np.zeros(0)
+    if n >= 2 and rng.random() < 0.05:
         # structured family: a linear inequality whose distance from the
         # origin lies between delta*|a|_inf and delta*|a|_2 (reachable inside
         # the ball, but not by a move along one axis), gradient pushing the
